@@ -306,6 +306,9 @@ func vDo(op vOp) interface{} {
 	switch op.Op {
 	case "parse":
 		return vParse(op)
+	case "init", "fresh":
+		ParserInit()
+		return map[string]string{"ok": "init"}
 	case "cells":
 		return vCells()
 	case "translate":
@@ -353,10 +356,12 @@ func vTranslate(codes []int) interface{} {
 		names = append(names, TraceTranslate(i))
 	}
 	codesOf := []int{}
+	own := []int{}
 	for _, t := range vTokTab {
 		codesOf = append(codesOf, t.code)
+		own = append(own, translate(t.code))
 	}
-	return map[string]interface{}{"translate": out, "names": names, "codes": codesOf}
+	return map[string]interface{}{"translate": out, "names": names, "codes": codesOf, "own": own}
 }
 `
 
@@ -487,6 +492,9 @@ func vDo(op vOp) interface{} {
 	case "fresh":
 		vGetCtx(op.Ctx, true)
 		return map[string]string{"ok": "fresh"}
+	case "init":
+		vGetCtx(op.Ctx, false).ParserInit()
+		return map[string]string{"ok": "init"}
 	case "interleave":
 		return vInterleave(op)
 	case "parallel":
@@ -535,10 +543,12 @@ func vTranslate(codes []int) interface{} {
 		names = append(names, TraceTranslate(i))
 	}
 	codesOf := []int{}
+	own := []int{}
 	for _, t := range vTokTab {
 		codesOf = append(codesOf, t.code)
+		own = append(own, translate(t.code))
 	}
-	return map[string]interface{}{"translate": out, "names": names, "codes": codesOf}
+	return map[string]interface{}{"translate": out, "names": names, "codes": codesOf, "own": own}
 }
 `
 
@@ -668,8 +678,9 @@ function vTranslate(codes :number[]) :any {
 	const out :number[] = []
 	for (const c of codes) { out.push(translate(c)) }
 	const cs :number[] = []
-	for (const t of vTokTab) { cs.push(t.code) }
-	return {translate: out, codes: cs}
+	const own :number[] = []
+	for (const t of vTokTab) { cs.push(t.code); own.push(translate(t.code)) }
+	return {translate: out, codes: cs, own: own}
 }
 
 function vMain() {
@@ -679,6 +690,7 @@ function vMain() {
 	for (const op of ops) {
 		let r :any
 		if (op.op == "parse") { r = vParse(op) }
+		else if (op.op == "init" || op.op == "fresh") { initialize(); r = {ok: "init"} }
 		else if (op.op == "cells") { r = vCells() }
 		else if (op.op == "translate") { r = vTranslate(op.in) }
 		else { r = {error: "unknown op " + op.op} }
